@@ -3,3 +3,4 @@ pub mod lexer;
 pub mod mterm;
 pub mod surface;
 pub mod tok;
+pub mod subst;
